@@ -314,6 +314,91 @@ def family_of(torch, ix, rank):
     return "tensor_rank2"
 
 
+# ------------------------------------------------------------------------------------------
+# "trigger" tags: class-aware, INPUT-only predicates, one per known root cause (notes/C03_findings.md).  The tag is part of
+# the group name, so that every group carries (at most) one root cause and the untagged groups are expected to pass.
+
+CAT_DIMS = {  # case -> concatenation dimensions (negative), as seen from the outer operator
+    "cat_cols": (-1,), "cat_rows": (-2,), "x_cat3_rows": (-2,), "x_cat3_cols": (-1,), "x_cat_rows_square": (-2,), "x_cat_cols_square": (-1,),
+    "x_cat_of_cat": (-2, -1), "x_batchrepeat_cat": (-2,), "x_cat_batch_inner": (-3,), "cat_batch": ("first",),
+}
+NUM_BLOCKS = {"blockdiag": 2, "blockdiag3": 3, "blockinterleaved": 2, "blockinterleaved3": 3, "nest_blockdiag_toeplitz": 2, "x_blockdiag_kron": 2,
+              "x_blockinter_sum": 2, "x_sumbatch_blockdiag": 2, "x_constmul_blockinter": 3, "x_tri_of_blockdiag": 2}
+CHOL_CASES = ("chol_lower", "chol_upper")
+KNOWN_DEFECT_CASES = set(CAT_DIMS) | set(NUM_BLOCKS) | set(CHOL_CASES) | {"tperm"}
+CAT_PIECES = {  # case -> f(size of the cat dimension) = (piece sizes, indices of the pieces that are not DenseLinearOperators)
+    "x_cat3_rows": lambda S: ([(S - 1) // 2, (S - 1) // 2, 1], {1}),
+    "x_cat3_cols": lambda S: ([(S - 2) // 2, 2, (S - 2) // 2], {0, 2}),
+    "x_cat_rows_square": lambda S: ([1, S - 1], {1} if (S - 1) % 2 == 0 else set()),
+}
+
+
+def trigger_of(torch, case, full, shape):
+    """tag of the first known root cause whose (input-only) trigger condition the index satisfies, else None.
+    ``full``: normalise()d index (rank entries: int / slice / LongTensor)."""
+    ist = torch.is_tensor
+    rank = len(shape)
+    batch, row, col = full[:-2], full[-2], full[-1]
+    bt = any(ist(a) for a in batch)
+    absorbed = (bt and (ist(row) or ist(col))) or (ist(row) and ist(col))
+
+    def as_slice(a):  # what __getitem__ hands to _getitem for an int in a matrix position
+        return slice(a, (a + 1) or None, None) if isinstance(a, int) else a
+
+    if case == "tperm" and absorbed:
+        return "tperm_get_indices"
+    if case in CHOL_CASES and not absorbed:
+        r_, c_ = as_slice(row), as_slice(col)
+        both_full = isinstance(r_, slice) and r_ == FULL and isinstance(c_, slice) and c_ == FULL
+        same = (ist(r_) and ist(c_) and torch.equal(r_, c_)) or (not ist(r_) and not ist(c_) and r_ == c_)
+        if same and not both_full:
+            return "chol_row_eq_col"
+    if case in CAT_DIMS:
+        for d in CAT_DIMS[case]:
+            d = -rank if d == "first" else d
+            if -d > rank:
+                continue
+            a = full[d]
+            size = shape[d]
+            if d >= -2 and isinstance(a, int) and not absorbed:
+                a = as_slice(a)
+            if isinstance(a, slice) and a != FULL and a.step is None:
+                if (a.start is not None and a.start < -size) or (a.stop is not None and a.stop >= size):
+                    return "cat_slice_mod_size"
+            if d < -2 and isinstance(a, int) and a < 0:
+                return "cat_batch_dim_negative_int"
+            if d < -2 and ist(a) and not absorbed and sum(1 for b in batch if ist(b)) >= 2:
+                return "cat_batch_dim_tensor+other_batch_tensor"
+            if d == -3 and any(isinstance(b, int) for b in batch):
+                return "cat_dim-3_any_batch_int"
+            if isinstance(a, int) and a < 0:
+                return "cat_negative_int"
+            if case in CAT_PIECES and not absorbed and d >= -2:
+                sizes, nondense = CAT_PIECES[case](size)
+                pos = None
+                if isinstance(a, slice) and a != FULL and a.step is None:
+                    pos = list(range(*a.indices(size)))
+                elif ist(a) and a.dim() == 1:
+                    pos = [int(v) % size for v in a.tolist()]
+                if pos:
+                    bounds = [0]
+                    for z in sizes:
+                        bounds.append(bounds[-1] + z)
+                    pieces = {next((i for i in range(len(sizes)) if bounds[i] <= q < bounds[i + 1]), None) for q in pos}
+                    if len(pieces) == 1 and next(iter(pieces)) in nondense:
+                        return "cat_single_nondense_piece"
+    if case in NUM_BLOCKS and not absorbed:
+        k = NUM_BLOCKS[case]
+        r_, c_ = as_slice(row), as_slice(col)
+        if isinstance(r_, slice) and isinstance(c_, slice) and not (r_ == FULL and c_ == FULL) and r_.step is None and c_.step is None:
+            m_, n_ = shape[-2], shape[-1]
+            if not ((r_.start or 0) % k or (c_.start or 0) % k or (r_.stop or m_) % k or (c_.stop or n_) % k):
+                return "block_aligned_slices"
+    if absorbed and any(isinstance(a, int) and a < 0 for a in (row, col)):
+        return "negint_absorbed"
+    return None
+
+
 _UNSUPPORTED_RX = re.compile(r"not (currently |yet )?supported|does not support|unsupported", re.I)
 
 
@@ -625,7 +710,7 @@ def all_instances(tier, names, dtypes=None, batches=None, sizes=None):
 
 BUDGET = {  # number of index tuples per operator instance and family
     "quick": dict(singles=40, pairs=16, rand=6, ellipsis=6, rank2=7, negval=2, second_step=2),
-    "thorough": dict(singles=150, pairs=70, rand=24, ellipsis=14, rank2=24, negval=4, second_step=6),
+    "thorough": dict(singles=100, pairs=48, rand=16, ellipsis=10, rank2=16, negval=3, second_step=4),
 }
 
 
@@ -732,7 +817,8 @@ def rtc_getitem(case_names, tier):
                     continue
                 n_indices += 1
                 fam = "negative_valued_tensor" if which == "negval" else family_of(torch, ix, rank)
-                group = f"getitem:{fam}/{c.name}"
+                trig = trigger_of(torch, c.name, normalise(torch, ix, rank), tuple(dense.shape))
+                group = f"getitem:{fam}{'+' + trig if trig else ''}/{c.name}"
                 results = []
                 for dbg in (True, False):
                     lab = f"{label}|dbg={int(dbg)}|ix={key}"
@@ -765,19 +851,25 @@ def rtc_getitem(case_names, tier):
                         if fam2 in ("negint_matrix_pos", "batch_tensor+int_row+tensor_col", "rank2_batch_row_tensors+trailing_col"):
                             continue  # generic __getitem__ defect families: already evaluated in the first step
                         lab2 = f"{label}|ix={key}|then={fmt_index(ix2)}"
+                        trig2 = trigger_of(torch, c.name, normalise(torch, ix2, exp.dim()), tuple(exp.shape))  # (matrix dims stay last)
+                        # a first step that satisfies a trigger may "pass" and still hand back a damaged operator; second steps on
+                        # results of the classes with known indexing defects cannot be classified from the input alone
+                        t2 = (trig and f"after_{trig}") or trig2 or ("unclassified" if c.name in KNOWN_DEFECT_CASES else "plain")
+                        g2 = f"getitem_twice:{t2}/{c.name}"
                         try:
                             r2 = res[ix2]
                         except Exception as e:  # noqa
                             if not permitted_unsupported(torch, O, e, res, ix2):
-                                rec.check(f"getitem_twice/{c.name}", lab2, False, f"raised {type(e).__name__}: {str(e)[:300]}")
+                                rec.check(g2, lab2, False, f"raised {type(e).__name__}: {str(e)[:300]}")
                             continue
-                        compare(f"getitem_twice/{c.name}", lab2, r2, exp2, dt)
+                        compare(g2, lab2, r2, exp2, dt)
                     if exp.shape[-1] == exp.shape[-2]:
                         lab2 = f"{label}|ix={key}|then=diagonal"
-                        done, r2 = rec.guard(f"getitem_twice/{c.name}", lab2, lambda: res.diagonal())
+                        gd = f"getitem_twice:diagonal{'_after_' + trig if trig else ''}/{c.name}"
+                        done, r2 = rec.guard(gd, lab2, lambda: res.diagonal())
                         if done:
                             e2 = exp.diagonal(dim1=-2, dim2=-1)
-                            rec.check(f"getitem_twice/{c.name}", lab2, r2.shape == e2.shape and zoo.close(r2, e2, dt=dt, scale=4.0), "diagonal of indexed operator")
+                            rec.check(gd, lab2, r2.shape == e2.shape and zoo.close(r2, e2, dt=dt, scale=4.0), "diagonal of indexed operator")
     obs = rec.obligations()
     return {"obligations": obs, "stats": {"indices": n_indices, "skipped_torch_rejects": skipped_torch}}
 
@@ -803,7 +895,7 @@ RTC_META = {
     "families": "52 zoo cases + 31 extra nested / broadcasting-batch cases x batch shapes {(),(2,),(1,),(2,3)} (+(1,2),(3,1,2) thorough) "
                 "x sizes {1,2,4,6} in float64 and {1,4} in float32 (thorough: {1,2,3,4,6,9} in both dtypes); per instance: every index atom (8 ints, <=31 slices, 0-d/1-d tensors, lists) in every "
                 "position (singles, also behind/before an Ellipsis and as bare index), a stratified rotating 1/k sample of all atom pairs in all "
-                "position pairs (16 quick / 70 thorough per instance), seeded random full-rank tuples (6 / 24), an Ellipsis in every position of "
+                "position pairs (16 quick / 48 thorough per instance), seeded random full-rank tuples (6 / 16), an Ellipsis in every position of "
                 "tuples of every length, rank-2 broadcasting tensor combinations over every admissible position set, tensors with negative "
                 "entries (own group), a second indexing step / diagonal on operator results; each with settings.debug on and off",
 }
